@@ -1,7 +1,11 @@
 SPECIFICATION Spec
 CONSTANTS
-  StopRule = "minusDelay"
-  ChunkRule = "code"
-  SeedSpace <- SeedsQuick
+  StopRule = "plusDelay"
+  ChunkRule = "delayAware"
+  ReduceRule = "loop"
+  KeyRule = "fallback"
+  AssignRule = "strict"
+  SeedSpace <- SeedsQuickX
   SizeSpace <- SizeTriplesQ
 INVARIANT Report
+INVARIANT DesignValid
